@@ -3,7 +3,7 @@ import re,collections,json,sys
 jobs=[json.loads(l) for l in open(sys.argv[1])]
 c=collections.Counter(); ex={}
 for l in open(sys.argv[2]):
-    m=re.match(r'<<\s*"TRACE_\w+_VIOLATION", (\d+), (\d+), "(\w+)", "(.*)"\s*>>',l.strip())
+    m=re.match(r'<<\s*"TRACE_\w+_VIOLATION", (\d+), (\d+), "([\w+]+)", "(.*)"\s*>>',l.strip())
     if m:
         x=int(m.group(1)); fam=jobs[x-1].get('fam','?')
         k=(m.group(3),m.group(4)[:70],fam); c[k]+=1; ex.setdefault(k,(x,int(m.group(2))))
